@@ -254,7 +254,7 @@ impl Check for C13 {
     }
 
     fn cases(&self, tier: Tier) -> u64 {
-        tier.pick(24_000, 800_000)
+        tier.pick(48_000, 800_000)
     }
 
     fn rule(&self) -> String {
